@@ -22,6 +22,18 @@
 
 namespace vf19 {
 
+// A refused image: a strict prefix of the stream image is offered to the stream deserializer with the tracking allocator. Whether it throws or
+// accepts (padding), everything it obtained must go back through the same allocator with matching sizes (the registry checks every release and
+// the balance at the end). Runs outside LibScope: the exception object itself legitimately comes from the default heap.
+template <typename Fn> inline void refused_prefix(const std::stringstream& ss, uint64_t mode, Fn deser) {
+  if (!(mode & 4)) return;
+  const std::string img = ss.str();
+  if (img.size() < 2) return;
+  const size_t cut = 1 + static_cast<size_t>(vf::mix64(mode * 0x9e3779b97f4a7c15ull + img.size()) % (img.size() - 1));
+  std::istringstream is(img.substr(0, cut), std::ios::binary);
+  try { deser(is); } catch (const std::exception&) {}
+}
+
 // ---------------------------------------------------------------- frequent items
 template <typename T>
 struct FrequentFamily {
@@ -56,6 +68,7 @@ struct FrequentFamily {
     if (mode & 1) {
       std::stringstream ss(std::ios::in | std::ios::out | std::ios::binary);
       { LibScope ls; sk.serialize(ss, sd); }
+      refused_prefix(ss, mode, [&](std::istream& is) { Obj tmp(Obj::deserialize(is, sd, typename Kit::Equal(), e.alloc<T>(reg))); (void)tmp; });
       return construct<Obj>([&](void* m) { return new (m) Obj(Obj::deserialize(ss, sd, typename Kit::Equal(), e.alloc<T>(reg))); });
     }
     unsigned header = (mode & 2) ? 5 : 0;
@@ -110,6 +123,7 @@ struct CountMinFamily {
     if (mode & 1) {
       std::stringstream ss(std::ios::in | std::ios::out | std::ios::binary);
       { LibScope ls; sk.serialize(ss); }
+      refused_prefix(ss, mode, [&](std::istream& is) { Obj tmp(Obj::deserialize(is, seed, e.alloc<uint64_t>(reg))); (void)tmp; });
       return construct<Obj>([&](void* m) { return new (m) Obj(Obj::deserialize(ss, seed, e.alloc<uint64_t>(reg))); });
     }
     unsigned header = (mode & 2) ? 8 : 0;
@@ -158,6 +172,7 @@ struct VarOptFamily {
     if (mode & 1) {
       std::stringstream ss(std::ios::in | std::ios::out | std::ios::binary);
       { LibScope ls; sk.serialize(ss, sd); }
+      refused_prefix(ss, mode, [&](std::istream& is) { Obj tmp(Obj::deserialize(is, sd, e.alloc<T>(reg))); (void)tmp; });
       return construct<Obj>([&](void* m) { return new (m) Obj(Obj::deserialize(ss, sd, e.alloc<T>(reg))); });
     }
     unsigned header = (mode & 2) ? 6 : 0;
@@ -289,6 +304,7 @@ struct EbppsFamily {
     if (mode & 1) {
       std::stringstream ss(std::ios::in | std::ios::out | std::ios::binary);
       { LibScope ls; sk.serialize(ss, sd); }
+      refused_prefix(ss, mode, [&](std::istream& is) { Obj tmp(Obj::deserialize(is, sd, e.alloc<T>(reg))); (void)tmp; });
       return construct<Obj>([&](void* m) { return new (m) Obj(Obj::deserialize(ss, sd, e.alloc<T>(reg))); });
     }
     unsigned header = (mode & 2) ? 6 : 0;
@@ -338,6 +354,7 @@ struct TDigestFamily {
     if (mode & 1) {
       std::stringstream ss(std::ios::in | std::ios::out | std::ios::binary);
       { LibScope ls; td.serialize(ss, with_buffer); }
+      refused_prefix(ss, mode, [&](std::istream& is) { Obj tmp(Obj::deserialize(is, e.alloc<double>(reg))); (void)tmp; });
       return construct<Obj>([&](void* m) { return new (m) Obj(Obj::deserialize(ss, e.alloc<double>(reg))); });
     }
     auto bytes = [&] { LibScope ls; return td.serialize(0, with_buffer); }();
@@ -390,6 +407,7 @@ struct BloomFamily {
     if (mode & 1) {
       std::stringstream ss(std::ios::in | std::ios::out | std::ios::binary);
       { LibScope ls; bf.serialize(ss); }
+      refused_prefix(ss, mode, [&](std::istream& is) { Obj tmp(Obj::deserialize(is, e.alloc<uint8_t>(reg))); (void)tmp; });
       return construct<Obj>([&](void* m) { return new (m) Obj(Obj::deserialize(ss, e.alloc<uint8_t>(reg))); });
     }
     unsigned header = (mode & 2) ? 8 : 0;
@@ -447,6 +465,7 @@ struct DensityFamily {
     if (mode & 1) {
       std::stringstream ss(std::ios::in | std::ios::out | std::ios::binary);
       { LibScope ls; sk.serialize(ss); }
+      refused_prefix(ss, mode, [&](std::istream& is) { Obj tmp(Obj::deserialize(is, AnyVectorGaussian(), e.alloc<double>(reg))); (void)tmp; });
       return construct<Obj>([&](void* m) { return new (m) Obj(Obj::deserialize(ss, AnyVectorGaussian(), e.alloc<double>(reg))); });
     }
     auto bytes = [&] { LibScope ls; return sk.serialize(); }();
